@@ -42,6 +42,14 @@ impl Prop for C01 {
         source: Cases::Generated(Box::new(|| tree(GenCfg::wild()).prop_map(|spec| TreeCase { spec }).boxed()), 120_000, 3_000_000),
       },
       Leg {
+        name: "stacks of 2-3 ReplaceSources with insertions at the end of the innermost one",
+        source: Cases::Generated(Box::new(|| crate::gen::replace_stack(GenCfg { max_tokens: 5, ..GenCfg::wild() }).prop_map(|spec| TreeCase { spec }).boxed()), 100_000, 1_500_000),
+      },
+      Leg {
+        name: "SourceMapSource with a line longer than 64 KiB",
+        source: Cases::Generated(Box::new(|| crate::gen::huge_line_tree().prop_map(|spec| TreeCase { spec }).boxed()), 400, 6_000),
+      },
+      Leg {
         name: "larger wild trees (depth<=4, <=6 children, <=30 tokens)",
         source: Cases::Generated(Box::new(|| tree(GenCfg::wild_large()).prop_map(|spec| TreeCase { spec }).boxed()), 30_000, 500_000),
       },
